@@ -224,7 +224,7 @@ def strategy(tier):
 
 
 def n_random(tier):
-    return 800 if tier == "quick" else 100000
+    return 800 if tier == "quick" else 8000
 
 
 def expand(case):
